@@ -42,7 +42,8 @@ Definition LastFrac_call {F : Type} (round_mul : Z -> F -> option Z) (choice : Z
   match round_mul len self_fraction with
   | None => HErr EValue
   | Some n =>
-  match col with
+  if (len <=? n) then HOk (all_idx len)
+  else match col with
   | None => HErr EType
   | Some col_1 =>
   let ordered := argsort col_1 in
